@@ -324,12 +324,7 @@ theorem includeLoop_ext (files : Files) (refs : List Val) (items : List Val) (t 
     (fun x _ s hs => hs.trans (includeStep_ext files refs x s)) t (Ext.refl _)
   exact this
 
-/-! ### the cells of a document do not change while objects are allocated -/
-
-/-- the list `newdoc.cells` reads the same on every extension of `h`, and its members are objects of `h` -/
-structure CellsStable (h : Heap) (newdoc : Val) : Prop where
-  same : ∀ h', Ext h h' → listItems h' (getattrV h' newdoc "cells") = listItems h (getattrV h newdoc "cells")
-  range : ∀ i, Val.ref i ∈ listItems h (getattrV h newdoc "cells") → i < h.length
+/-! ### the cells the function visits are objects of the heap -/
 
 theorem lookupField_ref_mem {fs : List (String × Val)} {f : String} {l : Nat} (h : lookupField fs f = Val.ref l) :
     ∃ k, (k, Val.ref l) ∈ fs := by
@@ -345,42 +340,35 @@ theorem lookupField_ref_mem {fs : List (String × Val)} {f : String} {l : Nat} (
       obtain ⟨k', hk'⟩ := ih h
       exact ⟨k', mem_cons_of_mem _ hk'⟩
 
-/-- on a heap without dangling references, for a document that is an object of it -/
-theorem cellsStable_of_wf {h : Heap} (hwf : WF h) {d : Nat} (hd : d < h.length) : CellsStable h (Val.ref d) := by
+/-- on a heap without dangling references, for a document that is an object of it: the members of the list `doc.<f>`
+    are objects of the heap -/
+theorem items_range_of_wf {h : Heap} (hwf : WF h) {d : Nat} (hd : d < h.length) (f : String) :
+    ∀ i, Val.ref i ∈ listItems h (getattrV h (Val.ref d) f) → i < h.length := by
   have hdn : ∃ nd, h[d]? = some nd := ⟨h[d], List.getElem?_eq_getElem hd⟩
   obtain ⟨nd, hnd⟩ := hdn
-  cases hl : getattr h d "cells" with
+  intro i hi
+  cases hl : getattr h d f with
   | ref l =>
-    have hl' := hl
-    simp only [getattr, hnd] at hl'
-    obtain ⟨k, hk⟩ := lookupField_ref_mem hl'
-    have hlr : l < h.length := hwf nd (List.mem_of_getElem? hnd) l (mem_refs_iff.mpr ⟨k, hk⟩)
-    constructor
-    · intro h' e
-      simp only [getattrV, getattr, e.get hd, hnd, hl', listItems, e.get hlr]
-    · intro i hi
-      simp only [getattrV, hl, listItems] at hi
-      cases hln : h[l]? with
-      | none => simp [hln] at hi
-      | some lnd =>
-        simp only [hln, mem_map] at hi
-        obtain ⟨kv, hkv, he⟩ := hi
-        obtain ⟨k2, v2⟩ := kv
-        simp only at he
-        subst he
-        exact hwf lnd (List.mem_of_getElem? hln) i (mem_refs_iff.mpr ⟨k2, hkv⟩)
-  | none =>
-    constructor
-    · intro h' e
-      have : getattr h' d "cells" = Val.none := by simp only [getattr, e.get hd]; exact hl
-      simp [getattrV, this, hl, listItems]
-    · intro i hi; simp [getattrV, hl, listItems] at hi
-  | prim s =>
-    constructor
-    · intro h' e
-      have : getattr h' d "cells" = Val.prim s := by simp only [getattr, e.get hd]; exact hl
-      simp [getattrV, this, hl, listItems]
-    · intro i hi; simp [getattrV, hl, listItems] at hi
+    simp only [getattrV, hl, listItems] at hi
+    cases hln : h[l]? with
+    | none => simp [hln] at hi
+    | some lnd =>
+      simp only [hln, mem_map] at hi
+      obtain ⟨kv, hkv, he⟩ := hi
+      obtain ⟨k2, v2⟩ := kv
+      simp only at he
+      subst he
+      exact hwf lnd (List.mem_of_getElem? hln) i (mem_refs_iff.mpr ⟨k2, hkv⟩)
+  | none => simp [getattrV, hl, listItems] at hi
+  | prim s => simp [getattrV, hl, listItems] at hi
+
+theorem allCells_range_of_wf {h : Heap} (hwf : WF h) {d : Nat} (hd : d < h.length) :
+    ∀ i, Val.ref i ∈ allCells h (Val.ref d) → i < h.length := by
+  intro i hi
+  simp only [allCells, mem_append] at hi
+  rcases hi with hi | hi
+  · exact items_range_of_wf hwf hd "cells" i hi
+  · exact items_range_of_wf hwf hd "cell2_ca_poolses" i hi
 
 theorem _root_.NmlVerif.PyHeap.CopySpec.values_new {h : Heap} {x : Nat} {c : Copied} {order : List Nat} (s : CopySpec h [] x c order)
     {a y : Nat} (hg : Memo.get? c.memo a = some y) : h.length ≤ y ∧ y < c.heap.length ∧ a ∈ order := by
@@ -388,19 +376,18 @@ theorem _root_.NmlVerif.PyHeap.CopySpec.values_new {h : Heap} {x : Nat} {c : Cop
   · exact r
   · simp [Memo.get?] at h0
 
-/-- the cells of a freshly copied document are new objects, and stay what they are -/
-theorem cellsStable_of_copy {h : Heap} {x : Nat} {c : Copied} {order : List Nat} (s : CopySpec h [] x c order) :
-    CellsStable c.heap (Val.ref c.root) ∧
-    ∀ i, Val.ref i ∈ listItems c.heap (getattrV c.heap (Val.ref c.root) "cells") → h.length ≤ i := by
+/-- the members of a list of a freshly copied document are new objects -/
+theorem copy_items_new {h : Heap} {x : Nat} {c : Copied} {order : List Nat} (s : CopySpec h [] x c order) (f : String) :
+    ∀ i, Val.ref i ∈ listItems c.heap (getattrV c.heap (Val.ref c.root) f) → h.length ≤ i ∧ i < c.heap.length := by
   have hroot := s.root
   obtain ⟨r1, r2, hx⟩ := s.values_new hroot
   obtain ⟨k, nd, _, hg, hnd, hcp, _⟩ := s.copy_of hx
   rw [hroot] at hg
   simp only [Option.some.injEq] at hg
   have hrootnode : c.heap[c.root]? = some (mapNode c.memo nd) := by rw [hg]; exact hcp
-  have hattr : getattr c.heap c.root "cells" = mapVal c.memo (lookupField nd.fields "cells") := by
+  have hattr : getattr c.heap c.root f = mapVal c.memo (lookupField nd.fields f) := by
     simp only [getattr, hrootnode, lookupField_mapNode]
-  cases hl : lookupField nd.fields "cells" with
+  cases hl : lookupField nd.fields f with
   | ref l =>
     obtain ⟨kf, hkf⟩ := lookupField_ref_mem hl
     obtain ⟨y, hy⟩ := s.closed x hx nd hnd l (mem_refs_iff.mpr ⟨kf, hkf⟩)
@@ -409,58 +396,49 @@ theorem cellsStable_of_copy {h : Heap} {x : Nat} {c : Copied} {order : List Nat}
     rw [hy] at hg2
     simp only [Option.some.injEq] at hg2
     have hynode : c.heap[y]? = some (mapNode c.memo lnd) := by rw [hg2]; exact hcp2
-    have hattr' : getattr c.heap c.root "cells" = Val.ref y := by rw [hattr, hl]; simp [mapVal, hy]
-    have hitems : ∀ i, Val.ref i ∈ listItems c.heap (getattrV c.heap (Val.ref c.root) "cells") →
-        h.length ≤ i ∧ i < c.heap.length := by
-      intro i hi
-      simp only [getattrV, hattr', listItems, hynode, mapNode, List.map_map, mem_map, Function.comp] at hi
-      obtain ⟨kv, hkv, he⟩ := hi
-      obtain ⟨k3, v3⟩ := kv
-      simp only at he
-      cases v3 with
-      | ref r3 =>
-        obtain ⟨y3, hy3⟩ := s.closed l hlo lnd hlnd r3 (mem_refs_iff.mpr ⟨k3, hkv⟩)
-        simp only [mapVal, hy3, Val.ref.injEq] at he
-        subst he
-        obtain ⟨z1, z2, _⟩ := s.values_new hy3
-        exact ⟨z1, z2⟩
-      | none => simp [mapVal] at he
-      | prim t => simp [mapVal] at he
-    refine ⟨⟨?_, fun i hi => (hitems i hi).2⟩, fun i hi => (hitems i hi).1⟩
-    intro h' e
-    simp only [getattrV, getattr, e.get r2, hrootnode, listItems]
-    simp only [getattr, hrootnode] at hattr'
-    rw [hattr']
-    simp only [e.get y2]
+    have hattr' : getattr c.heap c.root f = Val.ref y := by rw [hattr, hl]; simp [mapVal, hy]
+    intro i hi
+    simp only [getattrV, hattr', listItems, hynode, mapNode, List.map_map, mem_map, Function.comp] at hi
+    obtain ⟨kv, hkv, he⟩ := hi
+    obtain ⟨k3, v3⟩ := kv
+    simp only at he
+    cases v3 with
+    | ref r3 =>
+      obtain ⟨y3, hy3⟩ := s.closed l hlo lnd hlnd r3 (mem_refs_iff.mpr ⟨k3, hkv⟩)
+      simp only [mapVal, hy3, Val.ref.injEq] at he
+      subst he
+      obtain ⟨z1, z2, _⟩ := s.values_new hy3
+      exact ⟨z1, z2⟩
+    | none => simp [mapVal] at he
+    | prim t => simp [mapVal] at he
   | none =>
-    have : getattr c.heap c.root "cells" = Val.none := by rw [hattr, hl]; rfl
-    refine ⟨⟨?_, ?_⟩, ?_⟩
-    · intro h' e
-      have h2 : getattr h' c.root "cells" = Val.none := by
-        simp only [getattr, e.get r2]; exact this
-      simp [getattrV, this, h2, listItems]
-    · intro i hi; simp [getattrV, this, listItems] at hi
-    · intro i hi; simp [getattrV, this, listItems] at hi
+    have : getattr c.heap c.root f = Val.none := by rw [hattr, hl]; rfl
+    intro i hi; simp [getattrV, this, listItems] at hi
   | prim t =>
-    have : getattr c.heap c.root "cells" = Val.prim t := by rw [hattr, hl]; rfl
-    refine ⟨⟨?_, ?_⟩, ?_⟩
-    · intro h' e
-      have h2 : getattr h' c.root "cells" = Val.prim t := by
-        simp only [getattr, e.get r2]; exact this
-      simp [getattrV, this, h2, listItems]
-    · intro i hi; simp [getattrV, this, listItems] at hi
-    · intro i hi; simp [getattrV, this, listItems] at hi
+    have : getattr c.heap c.root f = Val.prim t := by rw [hattr, hl]; rfl
+    intro i hi; simp [getattrV, this, listItems] at hi
 
-/-- the function body on a document whose cells are stable: a heap `hs` (after the includes were read) extends
-    `h`; from there on only cells are assigned to, and the copies are as `EventsOK` says -/
-theorem fixInPlace_spec (files : Files) (h : Heap) (newdoc : Val) (cs : CellsStable h newdoc) :
-    ∃ hs, Ext h hs ∧ Frame (listItems h (getattrV h newdoc "cells")) hs (fixInPlace files h newdoc).heap ∧
+/-- the cells (both lists) of a freshly copied document are new objects -/
+theorem copy_allCells_new {h : Heap} {x : Nat} {c : Copied} {order : List Nat} (s : CopySpec h [] x c order) :
+    ∀ i, Val.ref i ∈ allCells c.heap (Val.ref c.root) → h.length ≤ i ∧ i < c.heap.length := by
+  intro i hi
+  simp only [allCells, mem_append] at hi
+  rcases hi with hi | hi
+  · exact copy_items_new s "cells" i hi
+  · exact copy_items_new s "cell2_ca_poolses" i hi
+
+/-- the function body on a document whose cells (`all_cells`, read when the call starts) are objects of the heap: a
+    heap `hs` (after the includes were read) extends `h`; from there on only cells are assigned to, and the copies are
+    as `EventsOK` says -/
+theorem fixInPlace_spec (files : Files) (h : Heap) (newdoc : Val)
+    (hr : ∀ i, Val.ref i ∈ allCells h newdoc → i < h.length) :
+    ∃ hs, Ext h hs ∧ Frame (allCells h newdoc) hs (fixInPlace files h newdoc).heap ∧
       EventsOK hs.length (fixInPlace files h newdoc).heap (fixInPlace files h newdoc).copies := by
   unfold fixInPlace
   simp only
-  have hext := includeLoop_ext files (referencedIds h (listItems h (getattrV h newdoc "cells")))
+  have hext := includeLoop_ext files (referencedIds h (allCells h newdoc))
     (listItems h (getattrV h newdoc "includes")) ⟨[], [], h⟩
-  cases hf : forEachE (includeStep files (referencedIds h (listItems h (getattrV h newdoc "cells"))))
+  cases hf : forEachE (includeStep files (referencedIds h (allCells h newdoc)))
       (listItems h (getattrV h newdoc "includes")) ⟨[], [], h⟩ with
   | mk t o =>
     rw [hf] at hext
@@ -469,15 +447,14 @@ theorem fixInPlace_spec (files : Files) (h : Heap) (newdoc : Val) (cs : CellsSta
     | some e => exact ⟨t.heap, hext, Frame.refl _ _, EventsOK.nil _ _⟩
     | none =>
       simp only
-      rw [cs.same t.heap hext]
-      have hC : ∀ i, Val.ref i ∈ listItems h (getattrV h newdoc "cells") → i < t.heap.length :=
-        fun i hi => Nat.lt_of_lt_of_le (cs.range i hi) hext.len
+      have hC : ∀ i, Val.ref i ∈ allCells h newdoc → i < t.heap.length :=
+        fun i hi => Nat.lt_of_lt_of_le (hr i hi) hext.len
       have inv := fixLoop_inv
-        (addDefs t.heap (referencedIds h (listItems h (getattrV h newdoc "cells"))) t.em
+        (addDefs t.heap (referencedIds h (allCells h newdoc)) t.em
           (listItems t.heap (getattrV t.heap newdoc "morphology")))
-        (addDefs t.heap (referencedIds h (listItems h (getattrV h newdoc "cells"))) t.eb
+        (addDefs t.heap (referencedIds h (allCells h newdoc)) t.eb
           (listItems t.heap (getattrV t.heap newdoc "biophysical_properties")))
-        (listItems h (getattrV h newdoc "cells")) t.heap hC
+        (allCells h newdoc) t.heap hC
       refine ⟨t.heap, hext, ?_⟩
       split
       · next st heq => rw [heq] at inv; exact ⟨inv.frame, inv.events⟩
